@@ -71,6 +71,8 @@ impl ILoggerV2 for HLogger {
 /// are ignored on a file without header), flag `l` = a comment line with two Latin-1 letters directly below the header,
 /// the whole file written as Latin-1 (bytes 0xE9 / 0xEF: NOT valid UTF-8), flag `r` = CRLF line ends.
 ///
+/// Where the file is: flag `s` = in the directory `pkg/sub<stem>/` below the workspace root, flag `g` = the extension is
+/// written `.GOD` (the Gold IDE lives on a case-insensitive file system).
 /// flag `e` (together with `n`) = an EMPTY file: nothing but what `m b c l` put there (zero bytes, a byte order mark only,
 /// blank lines only, comments only) — no constant, no uses list, no members.  flag `d` = the header is `module <stem>`
 /// instead of `class <stem> [(parent)]` (a module has no parent: it is not written; mode `lock` only).
@@ -376,7 +378,10 @@ pub fn materialise(files: &[FileSpec]) -> Workspace {
     let mut out = Vec::new();
     for f in files {
         let (text, class_pos, parent_pos, member_pos, probes) = render(f, files);
-        let path = root.join(format!("{}.god", f.stem));
+        // flag `s`: the file lies two directories below the root; flag `g`: its extension is `.GOD`
+        let dir = if f.flags.contains('s') { root.join("pkg").join(format!("sub{}", f.stem)) } else { root.clone() };
+        std::fs::create_dir_all(&dir).unwrap();
+        let path = dir.join(format!("{}.{}", f.stem, if f.flags.contains('g') { "GOD" } else { "god" }));
         std::fs::write(&path, text).unwrap();
         let uri = Url::from_file_path(&path).unwrap();
         out.push(MFile { spec: f.clone(), path, uri, class_pos, parent_pos, member_pos, probes });
